@@ -393,7 +393,8 @@ def run_interest_batch(ctx, rng, fe, configs, matrix):
         else:
             must_validate = ref['sig_info'] is not None
         if h and must_validate:
-            ok_rets = [x for x in vr if x[1] <= h[0][1] and (v2_accepts(x[2]) if fe == 'v2' else bool(x[2]))]
+            ok_rets = [x for x in vr if x[1] <= h[0][1] and (v2_accepts(x[2]) if fe == 'v2' else bool(x[2]))
+                       and (x[0] == h[0][0] or x[0] == 'default')]       # the validator of the handler that was invoked
             if kind == 'none' and fe == 'v2':
                 ctx.report('delivered-without-validator:v2', 'parameterised/signed Interest delivered although no validator is attached', w)
             elif not ok_rets:
@@ -415,14 +416,113 @@ def run_interest_batch(ctx, rng, fe, configs, matrix):
                 ctx.event('observation:accepted-but-not-delivered')
 
 
+def check_validator_in_force(ctx, rng):
+    """Multi-step histories: the validator that counts is the one in force for the handler that receives the Interest."""
+    for fe in ('v2', 'v1'):
+        for rep in range(ctx.n(6, 400)):
+            log = []       # ('h', handler id, name) / ('v', validator id, name)
+            res = {}
+
+            async def main(S):
+                face = RecFace()
+                the_app = appv2.NDNApp(face=face) if fe == 'v2' else appv1.NDNApp(face=face, keychain=KeychainDigest())
+                main_task = asyncio.ensure_future(the_app.main_loop())
+                await asyncio.sleep(0)
+
+                def handler(hid):
+                    if fe == 'v2':
+                        return lambda n, p, reply, c: log.append(('h', hid, tuple(bytes(x) for x in n)))
+                    return lambda n, p, a: log.append(('h', hid, tuple(bytes(x) for x in n)))
+
+                def validator(vid, accept, lat=0):
+                    if fe == 'v2':
+                        async def v(n, sig, c):
+                            log.append(('v', vid, tuple(bytes(x) for x in n)))
+                            if lat:
+                                await asyncio.sleep(lat / 1000)
+                            return types.ValidResult.PASS if accept else types.ValidResult.FAIL
+                    else:
+                        async def v(n, sig):
+                            log.append(('v', vid, tuple(bytes(x) for x in n)))
+                            if lat:
+                                await asyncio.sleep(lat / 1000)
+                            return accept
+                    return v
+
+                def attach(prefix, h, v):
+                    if fe == 'v2':
+                        the_app.attach_handler(prefix, h, v)
+                    else:
+                        the_app.set_interest_filter(prefix, h, v)
+
+                def detach(prefix):
+                    if fe == 'v2':
+                        the_app.detach_handler(prefix)
+                    else:
+                        the_app.unset_interest_filter(prefix)
+                if fe == 'v1':
+                    the_app.int_validator = validator('default', False)
+                seq = [0]
+
+                async def signed(prefix):
+                    seq[0] += 1
+                    wire = build_interest(rng, prefix, seq[0], 'nonempty', rng.choice(['digest', 'hmac', 'ecdsa']), 'ok')
+                    await face.deliver(wire)
+                    await asyncio.sleep(0.2)
+                    return tuple(rc.strict_interest(wire)['name'])
+                out = []
+                # (1) permissive validator, detach, re-attach without validator: the old validator must not survive
+                P = [C(b're'), C(b'attach%d' % rep)]
+                attach(P, handler('h1'), validator('permissive', True))
+                n1 = await signed(P)
+                detach(P)
+                attach(P, handler('h2'), None)
+                n2 = await signed(P)
+                out.append(('reattach', n1, n2))
+                # (2) nested prefixes; the longer one is detached while its (slow, accepting) validator is still running
+                A = [C(b'site%d' % rep)]
+                B = A + [C(b'admin')]
+                attach(A, handler('outer'), None if fe == 'v2' else validator('outer-reject', False))
+                attach(B, handler('inner'), validator('inner-accept', True, lat=50))
+                seq[0] += 1
+                wire = build_interest(rng, B, seq[0], 'nonempty', 'digest', 'ok')
+                await face.deliver(wire)
+                await asyncio.sleep(0.01)
+                detach(B)
+                await asyncio.sleep(0.3)
+                out.append(('detach-during-validation', tuple(rc.strict_interest(wire)['name'])))
+                res['out'] = out
+                the_app.shutdown()
+                await asyncio.wait_for(main_task, 5)
+            S = vtime.run(main)
+            w = {'frontend': fe, 'log': [(a, b, [c.hex() for c in n]) for a, b, n in log]}
+            if S.result != 'ok':
+                ctx.report(f'in-force-scenario-{S.result}:{fe}', f'{S.error!r}', w)
+                continue
+            _, n1, n2 = res['out'][0]
+            ctx.case(('in-force', fe, rep), nontrivial=True)
+            ctx.event('validator-in-force-history')
+            if ('h', 'h1', n1) not in log:
+                ctx.event('observation:first-signed-interest-not-delivered')
+            if ('h', 'h2', n2) in log:
+                ctx.report(f'stale-validator-after-reattach:{fe}', 'after detaching and re-attaching a prefix without validator, a signed Interest reached the new handler '
+                           '(the validator of the previous attachment was still consulted)' if ('v', 'permissive', n2) in log else
+                           'after re-attaching a prefix without validator a signed Interest reached the handler although the validator in force rejects', w)
+            n3 = res['out'][1][1]
+            if ('h', 'outer', n3) in log:
+                ctx.report(f'delivered-to-handler-whose-validator-did-not-accept:{fe}', 'an Interest validated for the (meanwhile detached) longer prefix was handed to the handler of the '
+                           'shorter prefix, whose own validator in force never accepted it', w)
+
+
 def run(ctx):
     ctx.rule = RULE
     rng = ctx.rng
     check_data_side(ctx, rng)
     check_data_multi(ctx, rng)
+    check_validator_in_force(ctx, rng)
     if ctx.shard == 0:
         check_interest_side(ctx, rng)
-    need = ['multi-interest-data', 'data-before-deadline', 'data-after-deadline', 'data-at-deadline', 'payload-returned', 'validation-failure', 'timeout']
+    need = ['validator-in-force-history', 'multi-interest-data', 'data-before-deadline', 'data-after-deadline', 'data-at-deadline', 'payload-returned', 'validation-failure', 'timeout']
     if ctx.shard == 0:
         need += ['interest-needs-validation', 'interest-plain', 'validated-then-delivered', 'dropped']
     for k in need:
